@@ -86,6 +86,8 @@ def run(F, rep):
     rep.rule('C06.G1', 'flattenModel clones only after model != nullptr, !hasImportIssues(model) and model->isDefined(); the cloned model is returned only after the loop `while (flatModel->hasImports())` has ended, and nothing leaves that loop early')
     fm = entry
     cl = [c for c in fm.walk() if c.get('k') == 'Call' and c.get('opc') == '=' and c['c'][0].get('k') == 'Ref' and 'libcellml::Model' in (c['c'][0].get('t') or '')]
+    # ... or created where it is declared: `ModelPtr flatModel = model->clone();`
+    cl += [v['c'][0] for v in fm.walk() if v.get('k') == 'Var' and 'libcellml::Model' in (v.get('t') or '') and v.get('c') and any(x.get('k') == 'Call' and x.get('fn') == 'clone' for x in walk(v['c'][0])) and fm.enclosing_lambda(v) is None]
     if len(cl) != 1:
         raise AnalysisBroken('flattenModel: the single assignment of the model that is flattened vanished (%d found)' % len(cl))
     conds = ff(fm).rendered_conds_at(cl[0]) or set()
